@@ -98,9 +98,11 @@ pub struct Interp<'tcx> {
     pub track_ret: Vec<String>,
     pub fact_gen: u64,
     pub lin_tier: bool,
+    pub prod_atoms: HashMap<(AtomId, AtomId), AtomId>,
     pub atomize: Vec<String>,
     pub atomize_count: HashMap<String, usize>,
     pub ident_pats: Vec<String>,
+    pub dump_args_pats: Vec<String>,
     pub ret_key: u8,
     pub next_atom: usize,
     pub cur_bb: usize,
@@ -168,9 +170,11 @@ impl<'tcx> Interp<'tcx> {
             track_ret: Vec::new(),
             fact_gen: 0,
             lin_tier: false,
+            prod_atoms: HashMap::new(),
             atomize: Vec::new(),
             atomize_count: HashMap::new(),
             ident_pats: Vec::new(),
+            dump_args_pats: Vec::new(),
             ret_key: 3,
             next_atom: 0,
             cur_bb: 0,
